@@ -5,7 +5,9 @@
 
   Output: MISMATCH line=<n> case=<k> op=<op> impl=<..> model=<..> · SPECFAIL line=<n> case=<k> clause=<name>
           (clause `confirmation_not_beyond_received kind=<replay_file_name|other>` is printed independently of the others;
-           clause `no_crash`: the harness reported that the node process died in an operation) ·
+           clause `no_crash`: the harness reported that the node process died in an operation;
+           clauses `no_live_before_sync` / `sync_completes` (Spec `syncStep`) are evaluated on their own view of the trace;
+           a failing `probe` step is reported every time, with `dmg=<kind of the first damaged frame>`) ·
           BADLINE line=<n> · STATS k=v …
 -/
 import IcingaModel.Common.Proto
@@ -59,7 +61,8 @@ def DNode.posStr (n : DNode) : String :=
 def parseSec (s : String) : Option (Option Nat) :=
   match s with
   | "-" => some none | "m" => some (some 0) | "s" => some (some 1) | "a" => some (some 2)
-  | "x" => some (some 3) | "g" => some (some 4) | _ => none
+  | "x" => some (some 3) | "g" => some (some 4)
+  | "M" => some (some 5) | "S" => some (some 6) | "A" => some (some 7) | "X" => some (some 8) | "G" => some (some 9) | _ => none
 
 def parsePeer (s : String) : Option Nat :=
   match s with | "A" => some 0 | "B" => some 1 | "C" => some 2 | "D" => some 3 | "E" => some 4 | "F" => some 5 | _ => none
@@ -138,6 +141,13 @@ structure DSt where
   confReplay : Nat := 0
   confOther : Nat := 0
   died : Nat := 0
+  sy : SyncSt := {}
+  caseSync : Bool := false
+  syncBad : Nat := 0
+  attaches : Nat := 0
+  liveSent : Nat := 0
+  otherTypeSecs : Nat := 0
+  framedJunk : Nat := 0
 
 def limit : Nat := 50000
 
@@ -146,7 +156,8 @@ def mismatch (d : DSt) (n : Nat) (op impl model : String) : IO DSt := do
   return { d with mismatches := d.mismatches + 1 }
 
 /-- compare, then feed the observed step to the spec -/
-def finish (d : DSt) (n : Nat) (op : String) (node : DNode) (implObs modelObs : String) (implPos : String) (ev : Option Ev) : IO DSt := do
+def finish (d : DSt) (n : Nat) (op : String) (node : DNode) (implObs modelObs : String) (implPos : String) (ev : Option Ev)
+    (dmgTag : String := "") : IO DSt := do
   let mut d := { d with steps := d.steps + 1 }
   let mp := node.posStr
   let mut node := node
@@ -177,14 +188,31 @@ def finish (d : DSt) (n : Nat) (op : String) (node : DNode) (implObs modelObs : 
     d := { d with sp := sp' }
     match bad with
     | some cl =>
-      if !d.caseFailed then IO.println s!"SPECFAIL line={n} case={d.caseNo} clause={cl.name}"
-      d := { d with specfails := d.specfails + 1, caseFailed := true }
+      -- a probe leaves no trace in the state (the file is restored): every failing probe is reported, with the kind of damage
+      if dmgTag != "" then
+        IO.println s!"SPECFAIL line={n} case={d.caseNo} clause={cl.name} dmg={dmgTag}"
+        d := { d with specfails := d.specfails + 1 }
+      else
+        if !d.caseFailed then IO.println s!"SPECFAIL line={n} case={d.caseNo} clause={cl.name}"
+        d := { d with specfails := d.specfails + 1, caseFailed := true }
     | none => pure ()
   | _, _ => pure ()
   return d
 
-def doReplay (d : DSt) (n : Nat) (opName : String) (now : Int) (p : Nat) (sndView : Sender) (visS outS posS : String)
-    (dmg : Option Damage) (after : Sender) : IO DSt := do
+/-- clause no_live_before_sync / sync_completes on its own view of the trace: once per case -/
+def syncEv (d : DSt) (n : Nat) (e : SyncEv) : IO DSt := do
+  let (bad, sy') := syncStep d.sy e
+  let mut d := { d with sy := sy' }
+  match bad with
+  | some b =>
+    if !d.caseSync then IO.println s!"SPECFAIL line={n} case={d.caseNo} clause={b.name}"
+    d := { d with caseSync := true, syncBad := d.syncBad + 1 }
+  | none => pure ()
+  return d
+
+def doReplay (d : DSt) (n : Nat) (opName : String) (now : Int) (p : Nat) (sndView : Sender) (visS outS syncS posS : String)
+    (dmg : Option Damage) (after : Sender) (garb : String := "") : IO DSt := do
+  let d ← syncEv d n (.synced p (syncS != "0"))
   let node := d.node
   let visBits := visS.toList.map (· == '1')
   let vis : Nat → Bool := fun o => visBits.getD o false
@@ -207,7 +235,9 @@ def doReplay (d : DSt) (n : Nat) (opName : String) (now : Int) (p : Nat) (sndVie
     let implS := if junk then "(junk)" else showOut (eventsOnly io)
     let modelS := if junk then "(junk)" else showOut (eventsOnly mo)
     if !junk && io != mo then d := { d with setposDiff := d.setposDiff + 1 }
-    finish d n opName node' implS modelS posS (some (.replay now p io dmg))
+    -- the kind of damage: the first damaged frame's description without its digits (see harness DescribeDamage)
+    let cls := String.ofList (((garb.splitOn ",").headD "").toList.filter (fun ch => !ch.isDigit))
+    finish d n opName node' implS modelS posS (some (.replay now p io dmg)) (if dmg.isSome then (if cls == "" then "-" else cls) else "")
 
 def handle (d : DSt) (n : Nat) (line : String) : IO DSt := do
   let ws := words line
@@ -228,7 +258,7 @@ def handle (d : DSt) (n : Nat) (line : String) : IO DSt := do
       return { d with node := { snd := start now {}, peers := peers, paFirst := pf, satRev := sr, topRev := tr, table := [] },
                       sp := specInit durs,
                       caseNo := d.caseNo + 1, caseFailed := false, caseDelivered := false,
-                      caseConfReplay := false, caseConfOther := false, caseAdvance := false }
+                      caseConfReplay := false, caseConfOther := false, caseAdvance := false, sy := {}, caseSync := false }
     | _, _, _, _, _ => bad
   | "relay" :: now :: id :: sec :: _, [frame, live, nf, pos] =>
     match parseInt? now, parseNat? id, parseSec sec, unhex frame, parseNat? live, parseOptInt nf with
@@ -240,7 +270,10 @@ def handle (d : DSt) (n : Nat) (line : String) : IO DSt := do
       -- the record as the implementation encoded it (oracle: the JSON text is not the property's business)
       let items := (nsReadAll none [fb]).items
       let payload := items.headD []
+      let d ← syncEv d n (.live ((List.range 6).filter (fun i => (live >>> i) % 2 == 1)))
       let mut d := { d with relays := d.relays + 1, logged := d.logged + (if logged then 1 else 0),
+                            liveSent := d.liveSent + (if live != 0 then 1 else 0),
+                            otherTypeSecs := d.otherTypeSecs + (match sec with | some o => (if o ≥ 5 then 1 else 0) | none => 0),
                             bigRecords := d.bigRecords + (if fb.length > 1000000 then 1 else 0),
                             skippedAdv := d.skippedAdv + r.skipped.length }
       if logged && (items.length != 1 || nsEncode payload != fb) then
@@ -260,24 +293,35 @@ def handle (d : DSt) (n : Nat) (line : String) : IO DSt := do
     | _, _, _, _, _, _ => bad
   | ["conn", p], [pos] =>
     match parsePeer p with
-    | some p => finish d n "conn" (node.setPeer p (fun q => { q with connected := true, syncing := true })) "" "" pos (some (.conn p))
+    | some p =>
+      let d ← syncEv d n (.attach p)
+      finish d n "conn" (node.setPeer p (fun q => { q with connected := true, syncing := true })) "" "" pos (some (.conn p))
+    | none => bad
+  | ["attach", p], [pos] =>
+    match parsePeer p with
+    | some p =>
+      let d ← syncEv { d with attaches := d.attaches + 1 } n (.attach p)
+      finish d n "attach" (node.setPeer p (fun q => { q with connected := true })) "" "" pos (some (.conn p))
     | none => bad
   | ["disc", p], [pos] =>
     match parsePeer p with
-    | some p => finish d n "disc" (node.setPeer p (fun q => { q with connected := false })) "" "" pos (some (.disc p))
+    | some p =>
+      let d ← syncEv d n (.detach p)
+      finish d n "disc" (node.setPeer p (fun q => { q with connected := false })) "" "" pos (some (.disc p))
     | none => bad
-  | ["replay", now, p], [vis, out, pos] =>
+  | ["replay", now, p], [vis, out, sync, pos] =>
     match parseInt? now, parsePeer p with
-    | some now, some p => doReplay d n "replay" now p node.snd vis out pos none (replaySender now (node.peer p).dur node.snd)
+    | some now, some p => doReplay d n "replay" now p node.snd vis out sync pos none (replaySender now (node.peer p).dur node.snd)
     | _, _ => bad
-  | ["probe", file, k, hx, now, p], [vis, out, pos] =>
+  | ["probe", file, k, hx, now, p], [vis, out, sync, garb, pos] =>
     match fileTok file, parseNat? k, unhex hx, parseInt? now, parsePeer p with
     | some file, some k, some hb, some now, some p =>
       let sz := match file with
         | none => (match node.snd.current with | some b => b.length | none => 0)
         | some nm => ((node.snd.files.find? (·.name == nm)).map (·.bytes.length)).getD 0
       let d := if k < sz || !hb.isEmpty then { d with damagedReplays := d.damagedReplays + 1 } else d
-      doReplay d n "probe" now p (setBytes file k hb (closeLog node.snd)) vis out pos (some ⟨file, k, !hb.isEmpty⟩) (openLog now node.snd)
+      let d := if garb != "-" && garb != "f" && !garb.startsWith "i" then { d with framedJunk := d.framedJunk + 1 } else d
+      doReplay d n "probe" now p (setBytes file k hb (closeLog node.snd)) vis out sync pos (some ⟨file, k, !hb.isEmpty⟩) (openLog now node.snd) garb
     | _, _, _, _, _ => bad
   | ["rotate", now], [nf, pos] =>
     match parseInt? now, parseOptInt nf with
@@ -318,7 +362,7 @@ def handle (d : DSt) (n : Nat) (line : String) : IO DSt := do
     | some file, some k, some hb =>
       finish d n "setbytes" { node with snd := setBytes file k hb node.snd } "" "" pos (some (.damage ⟨file, k, !hb.isEmpty⟩))
     | _, _, _ => bad
-  | ["dump", now], [vis, out, pos] =>
+  | ["dump", now], [vis, out, _, pos] =>
     match parseInt? now, parseOut out with
     | some now, some io =>
       let visBits := vis.toList.map (· == '1')
@@ -341,6 +385,7 @@ def handle (d : DSt) (n : Nat) (line : String) : IO DSt := do
       let d := if nf.isSome then { d with rotations := d.rotations + 1 } else d
       -- for the ghost history a stop is a rotation followed by the end of all connections
       let d ← finish d n "stop" node' (nf.map toString |>.getD "-") (showNames (newNames node.snd s')) pos (some (.rotate nf))
+      let d ← syncEv d n .restart
       return { d with sp := (specStep d.sp ⟨.restart, d.sp.pos⟩).2 }
     | _, _ => bad
   | ["crash", k], [pos] =>
@@ -349,6 +394,7 @@ def handle (d : DSt) (n : Nat) (line : String) : IO DSt := do
       let sz := match node.snd.current with | some b => b.length | none => 0
       let kk := if k < 0 then sz else k.toNat
       let node' := (List.range 6).foldl (fun nd i => nd.setPeer i (fun q => { q with connected := false })) { node with snd := crash kk node.snd }
+      let d ← syncEv d n .restart
       finish d n "crash" node' "" "" pos (some (.damage ⟨none, kk, false⟩))
     | none => bad
   | ["start", now], [sr, tr, pos] =>
@@ -356,6 +402,7 @@ def handle (d : DSt) (n : Nat) (line : String) : IO DSt := do
     | some now, some sr, some tr =>
       let node' := (List.range 6).foldl (fun nd i => nd.setPeer i (fun q => { q with connected := false, syncing := false }))
         { node with snd := start now node.snd, satRev := sr, topRev := tr }
+      let d ← syncEv d n .restart
       finish { d with restarts := d.restarts + 1 } n "start" node' "" "" pos (some .restart)
     | _, _, _ => bad
   | _, _ => bad
@@ -363,4 +410,4 @@ def handle (d : DSt) (n : Nat) (line : String) : IO DSt := do
 def main : IO Unit := do
   let stdin ← IO.getStdin
   let d ← foldLines stdin handle ({} : DSt)
-  IO.println s!"STATS cases={d.caseNo} steps={d.steps} relays={d.relays} logged={d.logged} replays={d.replays} probes={d.probes} damaged_replays={d.damagedReplays} delivered={d.delivered} setpos_in_replay={d.setposSeen} rotations={d.rotations} deletions={d.deletions} restarts={d.restarts} recv_dropped={d.recvDropped} skipped_advances={d.skippedAdv} nontrivial={d.nontrivial} mismatches={d.mismatches} specfails={d.specfails} died={d.died} confirm_beyond_replay_file_name={d.confReplay} confirm_beyond_other={d.confOther} dumps={d.dumps} setpos_queue_differs_from_model={d.setposDiff} position_advance_unjustified={d.advanceBad} records_over_1MB={d.bigRecords}"
+  IO.println s!"STATS cases={d.caseNo} steps={d.steps} relays={d.relays} logged={d.logged} replays={d.replays} probes={d.probes} damaged_replays={d.damagedReplays} delivered={d.delivered} setpos_in_replay={d.setposSeen} rotations={d.rotations} deletions={d.deletions} restarts={d.restarts} recv_dropped={d.recvDropped} skipped_advances={d.skippedAdv} nontrivial={d.nontrivial} mismatches={d.mismatches} specfails={d.specfails} died={d.died} confirm_beyond_replay_file_name={d.confReplay} confirm_beyond_other={d.confOther} dumps={d.dumps} setpos_queue_differs_from_model={d.setposDiff} position_advance_unjustified={d.advanceBad} records_over_1MB={d.bigRecords} sync_clause_failures={d.syncBad} attach_without_sync={d.attaches} relays_sent_live={d.liveSent} events_about_other_type_objects={d.otherTypeSecs} probes_with_well_framed_junk={d.framedJunk}"
